@@ -110,6 +110,7 @@ WHITELIST = [
     ("ordered_outer_map_result_size_both_unique", ["arr", "arr"]),
     ("ordered_inner_map_left_unique_partial", ["int", "int", "arr", "arr", "arr", "arr"]),
     ("ordered_get_last_as_filter", ["arr"]),
+    ("chunks", ["int", "int"]),
 ]
 
 LEAN_T = {"int": "Int", "bool": "Bool", "arr": "List Int", "barr": "List Bool", "opt_arr": "Option (List Int)",
@@ -226,7 +227,8 @@ class Kernel:
         if len(self.src_params) != len(ptypes):
             raise Unsupported(f"{len(self.src_params)} parameters in the source, {len(ptypes)} in the whitelist")
         for d in a.defaults:
-            if not (isinstance(d, ast.Constant) or (isinstance(d, ast.UnaryOp) and isinstance(d.operand, ast.Constant))):
+            if not (isinstance(d, ast.Constant) or (isinstance(d, ast.UnaryOp) and isinstance(d.operand, ast.Constant))) and \
+                    not (isinstance(d, ast.BinOp) and isinstance(d.left, ast.Constant) and isinstance(d.right, ast.Constant)):
                 raise Unsupported("non-constant default value")
         self.ptypes = list(ptypes)
         self.body = rewrite_continue(drop_message_strings(strip_doc(fn.body)))
@@ -237,6 +239,7 @@ class Kernel:
         self.optint = {f"p{k}" for k, t in enumerate(ptypes) if t == "opt_int"}
         self.loops = {}          # id(node) -> (k, has_break)
         self.number_loops()
+        self.find_yields()
         self.find_mutated()
         self.flagged = set()
         self.tmp = 0
@@ -294,6 +297,23 @@ class Kernel:
             returned = names if returned is None else returned & names
         returned = returned or set()
         self.mutated = sorted((p for p in stored if p not in returned), key=lambda x: int(x[1:]))
+
+    def find_yields(self):
+        """a GENERATOR (`yield a, b` of integers as a statement): rendered as the function that returns the lists of the values
+        yielded until exhaustion (one list per component, `y<j>`); exact for a generator without side effects, which is what the
+        supported subset admits (no stores into parameters, no `return` with a value)"""
+        ys = [n for b in self.body for n in ordered_nodes(b) if isinstance(n, (ast.Yield, ast.YieldFrom))]
+        self.yield_n = None
+        if not ys:
+            return
+        if any(isinstance(n, ast.YieldFrom) or n.value is None for n in ys):
+            raise Unsupported("yield from / yield without a value")
+        ns = {len(n.value.elts) if isinstance(n.value, ast.Tuple) else 1 for n in ys}
+        if len(ns) != 1:
+            raise Unsupported("yield statements of different arity")
+        if any(isinstance(n, ast.Return) for b in self.body for n in ordered_nodes(b)):
+            raise Unsupported("return in a generator")
+        self.yield_n = ns.pop()
 
     def opt_params_static(self):
         return {f"p{k}" for k, t in enumerate(self.ptypes) if t == "opt_arr"}
@@ -717,6 +737,13 @@ class Kernel:
             load = ast.Name(id=st.target.id, ctx=ast.Load())
             t, x, b = self.expr(ast.BinOp(left=load, op=st.op, right=st.value), defined)
             return self.wrap(b, self.assign_name(st.target.id, t, x)).split("\n"), defined | {st.target.id}, False
+        if isinstance(st, ast.Expr) and isinstance(st.value, ast.Yield):
+            v = st.value.value
+            parts = [self.expr(e, defined) for e in (v.elts if isinstance(v, ast.Tuple) else [v])]
+            if any(p[0] != "int" for p in parts):
+                raise Unsupported("yield of a non-integer")
+            upd = ", ".join(f"y{j} := (s.y{j} ++ [{p[1]}])" for j, p in enumerate(parts))
+            return self.wrap([b for p in parts for b in p[2]], f"let s := {{ s with {upd} }}").split("\n"), defined, False
         if isinstance(st, ast.Expr):
             c = st.value
             if (isinstance(c, ast.Call) and isinstance(c.func, ast.Attribute) and isinstance(c.func.value, ast.Name) and
@@ -944,10 +971,16 @@ class Kernel:
                         and not self.loops[id(last)][1]):
                     raise Unsupported("a function that returns a value on some paths only")
                 ret = None
+            elif self.yield_n is not None:
+                if self.mutated:
+                    raise Unsupported("a generator that stores into its parameters")
+                ret = "yield"
             elif not self.mutated:
                 raise Unsupported("the function returns nothing and stores into none of its parameters")
             else:
                 ret = ast.Return(value=ast.Tuple(elts=[], ctx=ast.Load()))
+        if self.yield_n is not None and ret != "yield":
+            raise Unsupported("return in a generator")
         defined = {f"p{k}" for k in range(len(self.ptypes))}
         self.ret_types = None
         main, d = self.block(body, defined, None, top=True, final=lambda d: self.ret_final(ret, d) if ret is not None else
@@ -967,6 +1000,8 @@ class Kernel:
             fields.append(f"  {v} : {LEAN_T[self.env[v]]}")
             if v in self.flagged:
                 fields.append(f"  {v}_def : Bool")
+        for j in range(self.yield_n or 0):
+            fields.append(f"  y{j} : List Int")
         for node_id, (k, hb, _, _, _) in sorted(self.loops.items(), key=lambda kv: kv[1][0]):
             if hb:
                 fields.append(f"  brk{k} : Bool")
@@ -986,6 +1021,8 @@ class Kernel:
             init.append(f"{v} := {DEFAULT[self.env[v]]}")
             if v in self.flagged:
                 init.append(f"{v}_def := false")
+        for j in range(self.yield_n or 0):
+            init.append(f"y{j} := []")
         for node_id, (k, hb, _, _, _) in sorted(self.loops.items(), key=lambda kv: kv[1][0]):
             if hb:
                 init.append(f"brk{k} := false")
@@ -1009,6 +1046,10 @@ class Kernel:
 
     def ret_final(self, ret, d):
         """`return E` (E a tuple: a product); the final contents of the arrays the kernel wrote into are appended"""
+        if ret == "yield":
+            self.ret_types = ["arr"] * self.yield_n
+            vals = [f"s.y{j}" for j in range(self.yield_n)]
+            return ".ok " + (vals[0] if len(vals) == 1 else "(" + ", ".join(vals) + ")")
         if isinstance(ret.value, ast.Tuple) and not ret.value.elts:
             parts = []                                              # a function without `return`
             types = [self.var(p, d)[0] for p in self.mutated]
